@@ -2,13 +2,17 @@ package main
 
 import (
 	"bytes"
+	"context"
 	"encoding/binary"
 	"fmt"
 	"io"
+	"net"
 	"runtime"
 	"sync"
 	"testing/iotest"
+	"time"
 
+	"tunnox-core/internal/protocol/session"
 	"tunnox-core/internal/protocol/session/crossnode"
 	"tunnox-core/verifharness/fw"
 )
@@ -32,6 +36,12 @@ type decBeh struct {
 	Len   string   `json:"len"`   // rt only
 	Ty    string   `json:"ty"`    // rt only
 	Salt  int64    `json:"salt"`
+	// E is the entry point the bytes are fed to (spec/CrossFrame.tla DecEntries):
+	//   rfr / sessrfr : crossnode.ReadFrameFromReader / session.ReadFrameFromReader on an io.Reader
+	//   tcp / sess    : crossnode.ReadFrame / session.ReadFrame on a real *net.TCPConn
+	//   stream        : FrameStream.Read on a crossnode.Conn over a real TCP connection
+	//   listener      : (*session.CrossNodeListener).handleConnection (its first-frame read)
+	E string `json:"e"`
 }
 
 type decOut struct {
@@ -53,22 +63,22 @@ func chunked(b []byte, chunk string) io.Reader {
 // to stop repeating the measurement early.
 const allocLimit = maxFrame + 4096
 
-// decode runs the real ReadFrameFromReader on input with panic capture and allocation accounting.
-// TotalAlloc is process wide, so anything else allocating at that moment (runtime, lingering
-// goroutines) can only add to a measurement: the call is repeated (up to 10 times) until a run
-// stays within the bound and the minimum is reported. Code that really over-allocates does so
-// on every run.
-func decode(input []byte, chunk string) decOut {
+// decode runs the real decoder behind entry point e on input with panic capture and allocation
+// accounting. TotalAlloc is process wide, so anything else allocating at that moment (runtime,
+// lingering goroutines) can only add to a measurement: the call is repeated (up to 10 times) until
+// a run stays within the bound and the minimum is reported. Code that really over-allocates does
+// so on every run (three runs far above the bound are taken as that).
+func decode(e string, id [16]byte, input []byte, chunk string) decOut {
 	var best decOut
 	for i := 0; i < 10; i++ {
-		o := decodeOnce(input, chunk)
-		if o.res == "panic" {
+		o := decodeOnce(e, id, input, chunk)
+		if o.res == "panic" || o.res == "hung" || o.res == "driver" {
 			return o
 		}
 		if i == 0 || o.alloc < best.alloc {
 			best = o
 		}
-		if best.alloc <= allocLimit {
+		if best.alloc <= allocLimit || (i >= 2 && best.alloc > 8*allocLimit) {
 			break
 		}
 		runtime.Gosched()
@@ -76,8 +86,110 @@ func decode(input []byte, chunk string) decOut {
 	return best
 }
 
-func decodeOnce(input []byte, chunk string) (o decOut) {
-	r := chunked(input, chunk)
+// feed puts input on a fresh loopback TCP connection (chunk "one": the header byte by byte, the
+// rest in three pieces) and half-closes it; the returned end is the one the decoder reads.
+func feed(input []byte, chunk string) (rd *net.TCPConn, cleanup func(), err error) {
+	wr, rd, err := tcpPair()
+	if err != nil {
+		return nil, nil, err
+	}
+	done := make(chan struct{})
+	go func() {
+		defer close(done)
+		wr.SetWriteDeadline(time.Now().Add(20 * time.Second))
+		if chunk == "one" {
+			wr.SetNoDelay(true)
+			i := 0
+			for ; i < len(input) && i < crossnode.FrameHeaderSize; i++ {
+				if _, err := wr.Write(input[i : i+1]); err != nil {
+					return
+				}
+			}
+			rest := input[i:]
+			for k := 3; k >= 1 && len(rest) > 0; k-- {
+				n := (len(rest) + k - 1) / k
+				if _, err := wr.Write(rest[:n]); err != nil {
+					return
+				}
+				rest = rest[n:]
+			}
+		} else if len(input) > 0 {
+			if _, err := wr.Write(input); err != nil {
+				return
+			}
+		}
+		wr.CloseWrite()
+	}()
+	return rd, func() { wr.Close(); rd.Close(); <-done }, nil
+}
+
+func decodeOnce(e string, ownID [16]byte, input []byte, chunk string) (o decOut) {
+	var call func() // the measured call: sets o.res / o.id / o.ty / o.data
+	frame := func(id [16]byte, ty byte, data []byte, err error) {
+		if err != nil {
+			o.res = "error"
+		} else {
+			o.res, o.id, o.ty, o.data = "frame", id, ty, data
+		}
+	}
+	cleanup := func() {}
+	switch e {
+	case "", "rfr", "sessrfr":
+		r := chunked(input, chunk)
+		if e == "sessrfr" {
+			call = func() { frame(session.ReadFrameFromReader(r)) }
+		} else {
+			call = func() { frame(crossnode.ReadFrameFromReader(r)) }
+		}
+	case "tcp", "sess", "stream", "listener":
+		rd, cl, err := feed(input, chunk)
+		if err != nil {
+			return decOut{res: "driver"}
+		}
+		cleanup = cl
+		rd.SetReadDeadline(time.Now().Add(20 * time.Second)) // the sender half-closes: a decoder that still waits then is stuck
+		switch e {
+		case "tcp":
+			call = func() { frame(crossnode.ReadFrame(rd)) }
+		case "sess":
+			call = func() { frame(session.ReadFrame(rd)) }
+		case "stream":
+			ctx, cancel := context.WithCancel(context.Background())
+			conn := crossnode.NewConn(ctx, "node-x", rd, nil)
+			fs := crossnode.NewFrameStream(conn, ownID)
+			p := make([]byte, maxFrame+256)
+			cleanup = func() { cl(); conn.Close(); cancel() }
+			call = func() {
+				n, err := fs.Read(p)
+				if n > 0 { // bytes handed to the caller as tunnel data of ownID
+					o.res, o.id, o.ty, o.data = "frame", ownID, crossnode.FrameTypeData, p[:n]
+				} else if err != nil {
+					o.res = "error"
+				} else {
+					o.res = "empty"
+				}
+			}
+		case "listener":
+			if err := sourceManager(); err != nil {
+				return decOut{res: "driver"}
+			}
+			lst := session.NewCrossNodeListener(smMgr, 0)
+			ctx, cancel := context.WithCancel(context.Background())
+			cleanup = func() { cl(); cancel() }
+			call = func() {
+				start := time.Now()
+				handleConnection(lst, ctx, rd) // reads the first frame, dispatches on its type, returns
+				if time.Since(start) > 15*time.Second {
+					o.res = "hung"
+				} else {
+					o.res = "done"
+				}
+			}
+		}
+	default:
+		return decOut{res: "driver"}
+	}
+	defer cleanup()
 	var m0, m1 runtime.MemStats
 	runtime.ReadMemStats(&m0)
 	func() {
@@ -86,16 +198,18 @@ func decodeOnce(input []byte, chunk string) (o decOut) {
 				o.res = "panic"
 			}
 		}()
-		id, ty, data, err := crossnode.ReadFrameFromReader(r)
-		if err != nil {
-			o.res = "error"
-		} else {
-			o.res, o.id, o.ty, o.data = "frame", id, ty, data
-		}
+		call()
 	}()
 	runtime.ReadMemStats(&m1)
 	o.alloc = m1.TotalAlloc - m0.TotalAlloc
 	return o
+}
+
+func entryName(e string) string {
+	if e == "" {
+		return "rfr"
+	}
+	return e
 }
 
 func capAlloc(a uint64) int { // TLC integers are 32 bit
@@ -124,6 +238,12 @@ func driveDec(env *fw.Env, b *decBeh) *fw.Trace {
 		id[int(b.Salt/3)%16] = 0 // ids with embedded zero bytes
 	}
 	ty := typeByte(b.C.Ty, b.Salt)
+	if b.E == "listener" && b.C.Ty == "known" {
+		// the listener dispatches on the first frame's type: request types (TargetReady, HTTP, DNS, command) enter
+		// handlers with work of their own; the decoder part is the same for every type
+		safe := []byte{crossnode.FrameTypeData, crossnode.FrameTypeClose, crossnode.FrameTypeAck, crossnode.FrameTypeEOF, crossnode.FrameTypeCommandResponse}
+		ty = safe[int(b.Salt)%len(safe)]
+	}
 	var decl uint32
 	switch b.C.Decl {
 	case "0":
@@ -175,8 +295,11 @@ func driveDec(env *fw.Env, b *decBeh) *fw.Trace {
 		return &fw.Trace{Status: fw.DriverError, Note: "hdr " + b.C.Hdr}
 	}
 	quiet.Lock()
-	o := decode(input, b.Chunk)
+	o := decode(b.E, id, input, b.Chunk)
 	quiet.Unlock()
+	if o.res == "driver" {
+		return &fw.Trace{Status: fw.DriverError, Note: "decoder fixture for entry point " + b.E}
+	}
 	eq := false
 	if o.res == "frame" { // the frame the bytes spell
 		eq = len(input) >= crossnode.FrameHeaderSize+int(decl) && o.id == id && o.ty == ty &&
@@ -185,7 +308,7 @@ func driveDec(env *fw.Env, b *decBeh) *fw.Trace {
 	t := &fw.Trace{Status: fw.Realised}
 	t.Events = append(t.Events,
 		fw.Event{"ev": "Cfg", "kind": "dec", "inputLen": len(input), "type": fmt.Sprintf("0x%02x", ty)},
-		fw.Event{"ev": "Dec", "c": b.C, "chunk": b.Chunk, "res": o.res, "eq": eq, "alloc": capAlloc(o.alloc)})
+		fw.Event{"ev": "Dec", "e": entryName(b.E), "c": b.C, "chunk": b.Chunk, "res": o.res, "eq": eq, "alloc": capAlloc(o.alloc)})
 	return t
 }
 
@@ -206,13 +329,16 @@ func driveRt(env *fw.Env, b *decBeh) *fw.Trace {
 	}
 	t := &fw.Trace{Status: fw.Realised}
 	t.Events = append(t.Events, fw.Event{"ev": "Cfg", "kind": "rt", "type": fmt.Sprintf("0x%02x", ty), "encoded": wire.Len()})
-	ev := fw.Event{"ev": "Rt", "len": b.Len, "ty": b.Ty, "chunk": b.Chunk, "enc": enc, "res": "na", "eq": false, "alloc": 0}
+	ev := fw.Event{"ev": "Rt", "e": entryName(b.E), "len": b.Len, "ty": b.Ty, "chunk": b.Chunk, "enc": enc, "res": "na", "eq": false, "alloc": 0}
 	if enc == "ok" {
 		// a second frame follows: the decoder must stop exactly at the frame boundary
 		input := append(append([]byte{}, wire.Bytes()...), 0xde, 0xad, 0xbe, 0xef)
 		quiet.Lock()
-		o := decode(input, b.Chunk)
+		o := decode(b.E, id, input, b.Chunk)
 		quiet.Unlock()
+		if o.res == "driver" {
+			return &fw.Trace{Status: fw.DriverError, Note: "decoder fixture for entry point " + b.E}
+		}
 		ev["res"] = o.res
 		ev["eq"] = o.res == "frame" && o.id == id && o.ty == ty && bytes.Equal(o.data, payload)
 		ev["alloc"] = capAlloc(o.alloc)
